@@ -50,12 +50,13 @@ type Op struct {
 }
 
 type Case struct {
-	Total    uint64 `json:"total"`
-	PerPeer  uint64 `json:"per_peer"`
-	Retries  int    `json:"retries"`
-	Ops      []Op   `json:"ops"`
-	FailSend []int  `json:"fail_send"` // indices (per whole run) of SendMsg calls that fail
-	FailConn []int  `json:"fail_conn"` // indices of connect attempts that fail
+	Total       uint64 `json:"total"`
+	PerPeer     uint64 `json:"per_peer"`
+	Retries     int    `json:"retries"`
+	Ops         []Op   `json:"ops"`
+	FailSend    []int  `json:"fail_send"`    // indices (per whole run) of SendMsg calls that fail
+	FailConn    []int  `json:"fail_conn"`    // indices of connect attempts that fail
+	KeepStalled bool   `json:"keep_stalled"` // a send stalled at disconnect stays stalled until unstalled
 }
 
 const NPeers, NReqs = 2, 3
@@ -126,6 +127,7 @@ func Gen(t *rapid.T, big bool) Case {
 			tot += sz
 		}
 	}
+	c.KeepStalled = rapid.Bool().Draw(t, "keepstalled")
 	c.FailSend = rapid.SliceOfNDistinct(rapid.IntRange(0, 10), 0, 4, rapid.ID[int]).Draw(t, "failsend")
 	if rapid.IntRange(0, 3).Draw(t, "hasfc") == 0 {
 		c.FailConn = rapid.SliceOfNDistinct(rapid.IntRange(0, 6), 1, 3, rapid.ID[int]).Draw(t, "failconn")
@@ -353,6 +355,7 @@ func Run(t *testing.T, c Case) *Obs {
 	synctest.Test(t, func(t *testing.T) {
 		ctx, cancel := context.WithCancel(context.Background())
 		net := sim.NewNet()
+		net.KeepBlockedOnDisconnect = c.KeepStalled
 		self := net.AddEndpoint(Self)
 		for _, p := range Peers {
 			net.AddEndpoint(p)
@@ -674,3 +677,53 @@ func (o *Obs) LateBuildClass() bool {
 // SuccessorClass: a queue was created for a peer while an earlier queue for the same peer had
 // not finished winding down (its shutdown callback had not run yet).
 func (o *Obs) SuccessorClass() bool { return o.SuccessorWhileWindingDown }
+
+// GenWindDown draws histories built around the pattern that keeps an old queue winding
+// down behind a stalled send while its peer disconnects, reconnects and is sent to again.
+func GenWindDown(t *rapid.T) Case {
+	c := Case{Retries: rapid.IntRange(1, 3).Draw(t, "retries"), PerPeer: 1000 * uint64(rapid.SampledFrom([]int{3, 5, 1000}).Draw(t, "perpeer")), Total: 1000 * uint64(rapid.SampledFrom([]int{6, 1000}).Draw(t, "total"))}
+	p := rapid.IntRange(0, NPeers-1).Draw(t, "peer")
+	tx := func() Op {
+		op := Op{K: "tx", Peer: p, Req: rapid.IntRange(0, NReqs-1).Draw(t, "req")}
+		n := rapid.IntRange(1, 3).Draw(t, "ntx")
+		for i := 0; i < n; i++ {
+			switch rapid.IntRange(0, 3).Draw(t, "txk") {
+			case 0:
+				op.Tx = append(op.Tx, TxOp{K: "status"})
+			case 1:
+				op.Tx = append(op.Tx, TxOp{K: "ext", Size: rapid.SampledFrom([]int{0, 10, 300}).Draw(t, "esize")})
+			default:
+				op.Tx = append(op.Tx, TxOp{K: "block", Size: rapid.SampledFrom([]int{1, 400, 900}).Draw(t, "bsize")})
+			}
+		}
+		return op
+	}
+	maybe := func(op Op) {
+		if rapid.IntRange(0, 3).Draw(t, "maybe") > 0 {
+			c.Ops = append(c.Ops, op)
+		}
+	}
+	other := Op{K: "tx", Peer: 1 - p, Req: 0, Tx: []TxOp{{K: "block", Size: 400}}}
+	maybe(Op{K: "connect", Peer: p})
+	c.Ops = append(c.Ops, tx())
+	c.Ops = append(c.Ops, Op{K: "stall", Peer: p})
+	c.Ops = append(c.Ops, tx())
+	maybe(tx())
+	maybe(other)
+	c.Ops = append(c.Ops, Op{K: "disconnect", Peer: p})
+	maybe(tx())
+	maybe(Op{K: "connect", Peer: p})
+	c.Ops = append(c.Ops, tx())
+	maybe(Op{K: "disconnect", Peer: p})
+	maybe(tx())
+	c.Ops = append(c.Ops, Op{K: "unstall", Peer: p})
+	maybe(tx())
+	maybe(Op{K: "disconnect", Peer: p})
+	c.Ops = append(c.Ops, Op{K: "wait", Peer: p})
+	c.KeepStalled = rapid.IntRange(0, 3).Draw(t, "keepstalled") > 0
+	c.FailSend = rapid.SliceOfNDistinct(rapid.IntRange(0, 8), 0, 2, rapid.ID[int]).Draw(t, "failsend")
+	if rapid.IntRange(0, 4).Draw(t, "hasfc") == 0 {
+		c.FailConn = rapid.SliceOfNDistinct(rapid.IntRange(0, 8), 1, 2, rapid.ID[int]).Draw(t, "failconn")
+	}
+	return c
+}
